@@ -228,6 +228,9 @@ func runStartReq(rep *vh.Report, env vh.Env, worlds []*world, pc *perClass, i in
 	w := worlds[i%nw]
 	method := startMethods[(i/nw)%nm]
 	u := w.ups[r.Intn(len(w.ups))]
+	if rd := i / (nw * nm); (rd+i)%3 == 0 {
+		u = w.rw[(rd+i/3)%len(w.rw)]
+	}
 	wordf := func(n int) string { return word(r, n) }
 	// the target: every other round a plain one (so that method x header is seen in isolation), else the
 	// classes of Part A's grammar in turn
@@ -442,7 +445,7 @@ func runStartReq(rep *vh.Report, env vh.Env, worlds []*world, pc *perClass, i in
 		kc.SessionFor = s.AuthorizedUpstream
 		if s.AuthorizedUpstream != u.host {
 			good = false
-			rep.Violate(streamReq, i, "callback: session-not-bound-to-request-host", fmt.Sprintf("callback on %s set a session authorised for %q", u.host, s.AuthorizedUpstream), kc)
+			rep.Violate(streamReq, i, "callback: session-not-bound-to-request-host"+routeSig(u), fmt.Sprintf("callback on %s set a session authorised for %q", u.host, s.AuthorizedUpstream), kc)
 		}
 		if s.Email != p.Email {
 			good = false
@@ -451,6 +454,12 @@ func runStartReq(rep *vh.Report, env vh.Env, worlds []*world, pc *perClass, i in
 	}
 	if good {
 		rep.Count("c_sessions_bound_and_verified", 1)
+		if u.route != "" {
+			rep.Count("c_sessions_bound_and_verified_rewrite_route", 1)
+		}
+	}
+	if s != nil && ((u.route != "" && (i/2+i/14)%2 == 0) || i%8 == 0) {
+		w.probeBinding(rep, streamReq, i, u, sv, kc)
 	}
 
 	// the final redirect: denotes what was recorded ...
